@@ -1,14 +1,22 @@
 #!/usr/bin/env python3
 """prints the markdown table of seeded defects and which check catches them (from seeded/*/meta.json)"""
 import glob, json, os
-print("| seed | property | change (what it needs to manifest) | caught by (quick tier) |")
+print("| seed | change | needs | caught by (quick tier) |")
 print("|---|---|---|---|")
+n = hit = 0
 for d in sorted(glob.glob(os.path.join(os.path.dirname(os.path.dirname(os.path.abspath(__file__))), "seeded", "*"))):
     m = json.load(open(d + "/meta.json"))
     ck = m.get("checks", {})
-    hits = [f"{k.split(':')[0]} ({v['first'][0].split(':')[0] if v.get('first') else ''})" for k, v in ck.items() if v["exit"] == 1 and v["violations"]]
+    own = m["property"]
+    hits = [f"{k.split(':')[0]} `{v['first'][0].split(':')[0] if v.get('first') else ''}`" for k, v in ck.items() if v["exit"] == 1 and v["violations"]]
+    hits.sort(key=lambda h: not h.startswith(own))
     miss = [k.split(":")[0] for k, v in ck.items() if not (v["exit"] == 1 and v["violations"])]
     res = ", ".join(hits) if hits else ("**missed** by " + ", ".join(miss))
-    summ = m["summary"].replace("\n", " ").replace("|", "/")
-    needs = m.get("needs", "").replace("\n", " ").replace("|", "/")
-    print(f"| {os.path.basename(d)} | {m['property']} | {summ[:170]} *Needs:* {needs[:150]} | {res} |")
+    summ = " ".join(m["summary"].split()).replace("|", "/")
+    needs = " ".join(m.get("needs", "").split()).replace("|", "/")
+    cut = lambda t, k: t if len(t) <= k else t[: t.rfind(" ", 0, k)] + " ..."
+    print(f"| {os.path.basename(d)} | {cut(summ, 200)} | {cut(needs, 160)} | {res} |")
+    n += 1
+    hit += bool(hits)
+print()
+print(f"{hit} of {n} caught.")
